@@ -10,14 +10,19 @@ import (
 	"fmt"
 	"math/big"
 	"sort"
+	"strings"
 
 	bc "github.com/lianxiangcloud/linkchain/blockchain"
 	"github.com/lianxiangcloud/linkchain/config"
 	cs "github.com/lianxiangcloud/linkchain/consensus"
+	cc "github.com/lianxiangcloud/linkchain/contract/contractcodes"
 	"github.com/lianxiangcloud/linkchain/libs/common"
 	"github.com/lianxiangcloud/linkchain/libs/crypto"
+	"github.com/lianxiangcloud/linkchain/libs/log"
 	"github.com/lianxiangcloud/linkchain/state"
 	"github.com/lianxiangcloud/linkchain/types"
+
+	wasmvm "github.com/xunleichain/tc-wasm/vm"
 
 	"verif/sim/simdb"
 )
@@ -59,6 +64,15 @@ type GenesisSpec struct {
 	VotePeriod uint64 // 0: no coefficient record (the default applies)
 	Candidates []CandidateSpec
 	Time       uint64
+	// CoefficientContract deploys the REAL genesis Coefficient wasm contract
+	// (contract/contractcodes.CoefficientCodes, initialised like
+	// cmd/commands/init.go initWasmContract does) instead of a bare storage
+	// record, and gives the committee right "coefficient" to Governor, so that
+	// Governor's transactions updateVotePeriod / updateVoteRate / updateCalRate /
+	// updateMaxScore / updateUTXOFee change the chain's coefficients. VotePeriod
+	// > 0 replaces the contract's initial period (1321).
+	CoefficientContract bool
+	Governor            common.Address
 }
 
 // DB names used by node.NewNode.
@@ -182,6 +196,75 @@ func WriteCandidates(st *state.StateDB, cands []CandidateSpec) {
 	st.SetState(addr, crypto.Keccak256Hash([]byte("pubkeys")), packStringV(keys))
 }
 
+// DeployGenesisWasm installs a genesis wasm contract and runs its init entry
+// exactly like cmd/commands/init.go initWasmContract.
+func DeployGenesisWasm(st *state.StateDB, addr common.Address, codeHex string) error {
+	code := common.Hex2Bytes(codeHex)
+	st.CreateAccount(addr)
+	st.SetNonce(addr, 1)
+	st.SetCode(addr, code)
+	ic := wasmvm.NewContract(common.EmptyAddress.Bytes(), addr.Bytes(), big.NewInt(0), uint64(1000000000000000000))
+	ic.SetCallCode(addr.Bytes(), crypto.Keccak256Hash(code).Bytes(), code)
+	ic.Input = []byte("init|{}")
+	ic.CreateCall = true
+	eng := wasmvm.NewEngine(ic, ic.Gas, st, log.NewNopLogger())
+	wapp, err := eng.NewApp(ic.Address().String(), ic.Code, false)
+	if err != nil {
+		return err
+	}
+	wapp.EntryFunc = wasmvm.APPEntry
+	_, err = eng.Run(wapp, ic.Input)
+	return err
+}
+
+// WriteCommitteeRight writes one entry of the committee contract's "right"
+// map (what the inner contracts read through TC_ContractStoragePureGet):
+// owner holds the named right.
+func WriteCommitteeRight(st *state.StateDB, right string, owner common.Address) {
+	addr := config.ContractCommitteeAddr
+	if !st.Exist(addr) {
+		st.CreateAccount(addr)
+		st.SetNonce(addr, 1)
+	}
+	var b [2]byte
+	key := append([]byte("right"), tagString)
+	binary.LittleEndian.PutUint16(b[:], uint16(len(right)+1))
+	key = append(append(append(key, b[:]...), right...), 0)
+	own := "0x" + hex.EncodeToString(owner.Bytes()) + string(rune(0))
+	val := []byte{tagString}
+	binary.LittleEndian.PutUint16(b[:], uint16(len(own)))
+	val = append(append(val, b[:]...), own...)
+	st.SetState(addr, crypto.Keccak256Hash(key), val)
+}
+
+// DeployCoefficientContract deploys the real Coefficient contract, hands the
+// right "coefficient" to governor and, if votePeriod > 0, replaces the initial
+// vote period in the record the contract's init wrote (its own JSON layout).
+func DeployCoefficientContract(st *state.StateDB, governor common.Address, votePeriod uint64) error {
+	if err := DeployGenesisWasm(st, config.ContractCoefficientAddr, cc.CoefficientCodes); err != nil {
+		return err
+	}
+	WriteCommitteeRight(st, "coefficient", governor)
+	slot := crypto.Keccak256Hash([]byte("Coefficient"))
+	rec := st.GetState(config.ContractCoefficientAddr, slot)
+	if len(rec) <= 4 {
+		return fmt.Errorf("init wrote no coefficient record")
+	}
+	if votePeriod > 0 {
+		js := string(rec[3 : len(rec)-1])
+		const was = `"VotePeriod":1321`
+		if !strings.Contains(js, was) {
+			return fmt.Errorf("unexpected initial record %q", js)
+		}
+		js = strings.Replace(js, was, fmt.Sprintf(`"VotePeriod":%d`, votePeriod), 1)
+		st.SetState(config.ContractCoefficientAddr, slot, packJSONValue([]byte(js)))
+	}
+	if co := st.GetCoefficient(log.NewNopLogger()); co == nil || (votePeriod > 0 && co.VotePeriod != votePeriod) {
+		return fmt.Errorf("coefficient record unreadable after deployment: %+v", co)
+	}
+	return nil
+}
+
 // GenesisDoc returns the consensus genesis document of the spec.
 func (g *GenesisSpec) GenesisDoc() *types.GenesisDoc {
 	params := types.DefaultConsensusParams()
@@ -215,7 +298,11 @@ func (g *GenesisSpec) Install(disk *simdb.Disk) error {
 		storeState.SetNonce(a.Addr, a.Nonce)
 	}
 	WriteWhiteList(storeState, g.Vals)
-	if g.VotePeriod > 0 {
+	if g.CoefficientContract {
+		if err := DeployCoefficientContract(storeState, g.Governor, g.VotePeriod); err != nil {
+			return fmt.Errorf("coefficient contract: %v", err)
+		}
+	} else if g.VotePeriod > 0 {
 		def := types.DefaultCoefficient()
 		WriteCoefficient(storeState, state.CoefficientJSON{VotePeriod: g.VotePeriod, VoteRate: def.VoteRate, CalRate: def.CalRate, MaxScore: def.MaxScore, UTXOFee: def.UTXOFee.String()})
 	}
